@@ -3,6 +3,14 @@
 # Writes seeded/RESULTS.md lines "seed property harnesses -> exit code / VIOLATION lines" and updates meta.json.detected_by.
 cd /verif
 declare -A PLAN=(
+ [C01-1]="C01:session_checker_error_then_recovery"
+ [C01-2]="C01:session_td_two_roots_share_a_dependency"
+ [C07-1]="C07:session_cyclic_requires_abort C11:c11_step3_pre6_g1_pair"
+ [C07-2]="C07:session_cyclic_requires_abort,ctx_require_closing_a_cycle_aborts"
+ [C14-1]="C14:c14_equals_checker_and_stamp_routes"
+ [C14-2]="C14:c14_typed_state_isolation"
+ [C16-1]="C16:c16_reorder_independent_of_set_order_pre10"
+ [C16-2]="C16:c16_reorder_independent_of_set_order_pre10 C04:bu_schedule_affected_by_resource_iff_inconsistent"
  [C02-1]="C02:td_check_order_read_require_read"
  [C02-2]="C02:td_make_consistent_once"
  [C04-1]="C11:c11_query_pairs_pre12,c11_query_pairs_pre13 C04:bu_queue_require_now_then_pop_chain"
